@@ -9,6 +9,8 @@ import (
 	"flag"
 	"fmt"
 	"os"
+	"os/exec"
+	"path/filepath"
 	"runtime"
 	"runtime/debug"
 	"sort"
@@ -60,6 +62,9 @@ type foundFailure struct {
 	RunIndex int64       `json:"run_index"`
 	Fail     failure     `json:"fail"`
 	Replay   *ReplayFile `json:"replay"`
+	// Original is the case as it was found, before the in-process minimisation (whose
+	// verdicts can be influenced by state left in this process by earlier runs)
+	Original *ReplayFile `json:"original,omitempty"`
 }
 
 func newStats(mode string, w int) *stats {
@@ -90,6 +95,8 @@ var (
 	fCap     = flag.Int("cap", 3000, "preempt: max preemption points per pair")
 	fMaxFail = flag.Int("maxfail", 12, "stop collecting failures after this many")
 	fMinRuns = flag.Int64("minruns", 0, "burst: run at least this many bursts even if -seconds is over (up to 6x -seconds)")
+	fKeyRefs = flag.String("keyrefs", "", "replaycheck: JSON file mapping operation keys to reference hashes")
+	fClass   = flag.String("class", "", "replaycheck: oracle class that must fail")
 	fBurst   = flag.Bool("burst", false, "export: a burst plan")
 	fText    = flag.Bool("text", false, "refone: print the dump text")
 )
@@ -120,6 +127,10 @@ func main() {
 		err = modeRefMerge()
 	case "export":
 		err = modeExport()
+	case "minimise":
+		err = modeMinimise()
+	case "replaycheck":
+		err = modeReplayCheck()
 	default:
 		err = fmt.Errorf("unknown -mode %q", *fMode)
 	}
@@ -314,6 +325,12 @@ func (st *stats) addFailure(idx int64, f failure, cases []runCase, refs *refTabl
 		return
 	}
 	note := ""
+	var original *ReplayFile
+	if minimiseIt {
+		inputs, runs := casesToRF(cases)
+		original = &ReplayFile{Format: replayFormat, Property: "C18", Mode: "serial", Seed: *fSeed, RunIndex: idx, Inputs: inputs, Runs: runs,
+			Expect: f, Identity: identityOf(f)}
+	}
 	if f.Oracle == "O6" {
 		// a deadlock leaves simulated locks held for ever: this process is poisoned; the
 		// recorded schedule is reported as it is and the worker stops
@@ -334,7 +351,7 @@ func (st *stats) addFailure(idx int64, f failure, cases []runCase, refs *refTabl
 	inputs, runs := casesToRF(cases)
 	rf := &ReplayFile{Format: replayFormat, Property: "C18", Mode: "serial", Seed: *fSeed, RunIndex: idx, Inputs: inputs, Runs: runs,
 		Expect: f, Minimised: note, Identity: identityOf(f)}
-	st.Failures = append(st.Failures, foundFailure{RunIndex: idx, Fail: f, Replay: rf})
+	st.Failures = append(st.Failures, foundFailure{RunIndex: idx, Fail: f, Replay: rf, Original: original})
 }
 
 // identityOf is what a known finding is matched by: oracle class + call (entry/variant) +
@@ -672,11 +689,35 @@ func modePreempt() error {
 			order = append(order, p)
 		}
 		sort.Slice(order, func(i, j int) bool { return order[i] < order[j] })
+		// histories: what task 0 did before A (varies from schedule to schedule)
+		var hs []*opKey
+		hs = append(hs, nil)
+		for _, c := range []int{clsEdge, clsCorrupt, clsSibling, clsChurn} {
+			if l := pool.byClass[c]; len(l) > 0 {
+				k := pool.ops[l[r.intn(len(l))]]
+				hs = append(hs, &k)
+			}
+		}
+		if c := pool.byFamily[pool.inputs[a.Input].family]; len(c) > 0 {
+			k := pool.ops[c[r.intn(len(c))]]
+			hs = append(hs, &k)
+		}
+		if c := pool.byPath[a.Path]; len(c) > 0 {
+			k := pool.ops[c[r.intn(len(c))]]
+			hs = append(hs, &k)
+		}
 		for _, b := range bs {
 			for _, i := range order {
 				job++
-				plan := &Plan{Tasks: []TaskPlan{{Ops: []OpPlan{{Key: a, Shared: -1}}}, {Ops: []OpPlan{{Key: b, Shared: -1}}}}}
-				sc := &Schedule{Segs: []Segment{{0, i}, {1, 1 << 60}, {0, 1 << 60}}}
+				t0 := TaskPlan{}
+				aOp := 0
+				if h := hs[job%len(hs)]; h != nil {
+					t0.Ops = append(t0.Ops, OpPlan{Key: *h, Shared: -1})
+					aOp = 1
+				}
+				t0.Ops = append(t0.Ops, OpPlan{Key: a, Shared: -1})
+				plan := &Plan{Tasks: []TaskPlan{t0, {Ops: []OpPlan{{Key: b, Shared: -1}}}}}
+				sc := &Schedule{Segs: []Segment{{Task: 0, N: i, Op: aOp}, {Task: 1, N: 1 << 60, Op: -1}, {Task: 0, N: 1 << 60, Op: -1}}}
 				res := execRun(plan, execOpts{lit: sc, refs: refs})
 				st.account(plan, nil, res)
 				side.add(int64(1)<<50|int64(ai)<<24|int64(job&0xffffff), res)
@@ -880,6 +921,100 @@ func replayPrefix(rf *ReplayFile) error {
 		}
 	}
 	fmt.Printf("NOT-REPRODUCED: %d bursts re-executed, no race report and every oracle held\n", n)
+	return nil
+}
+
+// modeMinimise: delta debugging where every candidate is judged by re-executing it in a
+// fresh process against references computed one call per fresh process - exactly what
+// `replay` does - so that state left behind in a long-lived process cannot influence it.
+func modeMinimise() error {
+	rf, err := readReplay(*fFile)
+	if err != nil {
+		return err
+	}
+	cases, err := installReplayPool(rf)
+	if err != nil {
+		return err
+	}
+	refs, _, err := freshRefs(*fFile)
+	if err != nil {
+		return err
+	}
+	keyRefs := map[string]uint64{}
+	for i, k := range pool.ops {
+		keyRefs[k.String()] = refs.e[i].hash
+	}
+	dir, err := os.MkdirTemp(filepath.Dir(*fOut), "min-")
+	if err != nil {
+		return err
+	}
+	defer os.RemoveAll(dir)
+	kr := filepath.Join(dir, "keyrefs.json")
+	if err := writeJSON(kr, keyRefs); err != nil {
+		return err
+	}
+	cls := failClass(rf.Expect.Oracle)
+	n := 0
+	check := func(cs []runCase) bool {
+		n++
+		inputs, runs := casesToRF(cs)
+		c := *rf
+		c.Inputs, c.Runs = inputs, runs
+		tmp := filepath.Join(dir, fmt.Sprintf("cand-%d.json", n))
+		if err := writeJSON(tmp, &c); err != nil {
+			return false
+		}
+		defer os.Remove(tmp)
+		cmd := exec.Command(os.Args[0], "-mode", "replaycheck", "-file", tmp, "-keyrefs", kr, "-class", cls)
+		err := cmd.Run()
+		if ee, ok := err.(*exec.ExitError); ok {
+			return ee.ExitCode() == 1
+		}
+		return false
+	}
+	secs := *fSeconds
+	if secs <= 0 {
+		secs = 40
+	}
+	m := &minimiser{cls: cls, budget: 1200, deadline: time.Now().Add(time.Duration(secs * float64(time.Second))), check: check}
+	before := m.size(cases)
+	out := m.minimise(cases)
+	inputs, runs := casesToRF(out)
+	rf.Inputs, rf.Runs = inputs, runs
+	rf.Minimised = fmt.Sprintf("delta debugging, every candidate re-executed in a fresh process: size %d -> %d in %d executions", before, m.size(out), m.execs)
+	return writeJSON(*fOut, rf)
+}
+
+// modeReplayCheck: exit 1 iff the replay file fails an oracle of class -class against the
+// given references.
+func modeReplayCheck() error {
+	rf, err := readReplay(*fFile)
+	if err != nil {
+		return err
+	}
+	cases, err := installReplayPool(rf)
+	if err != nil {
+		return err
+	}
+	b, err := os.ReadFile(*fKeyRefs)
+	if err != nil {
+		return err
+	}
+	keyRefs := map[string]uint64{}
+	if err := json.Unmarshal(b, &keyRefs); err != nil {
+		return err
+	}
+	t := &refTable{e: make([]refEntry, len(pool.ops))}
+	for i, k := range pool.ops {
+		h, ok := keyRefs[k.String()]
+		if !ok {
+			return fmt.Errorf("no reference for %s", k)
+		}
+		t.e[i] = refEntry{hash: h, steps: 2000, have: true}
+	}
+	if f, _, _ := runCases(cases, t, *fClass, false); f != nil {
+		os.Exit(1)
+	}
 	return nil
 }
 
